@@ -34,6 +34,8 @@ import YashModel.Args.SetMain
 import YashModel.Args.SetSpec
 import YashModel.Args.OptionNames
 import YashModel.Args.Typeset
+import YashModel.Args.SeparateModeLemmas
+import YashModel.Args.Str2sig
 import YashModel.Args.TypesetSpec
 import YashModel.Generated.OptionNames
 import YashModel.Generated.ArgSpecs
@@ -495,7 +497,13 @@ def runLine (line : String) : String :=
     (match p.toList.head? >>= parseBit, parseNames nm, args.mapM decChars with
      | some p, some nm0, some args =>
        let nm := withModelTables nm0 (parseAlnum nm) args
-       specCompare p (showSet (Bespoke.setParse nm p args)) (showSet (Bespoke.setParse nm p (Bespoke.separateSO true args)))
+       -- in EVERY `portable` state (named in the vector or not) the mode-following separated spelling must parse alike
+       let base := showSet (Bespoke.setParse nm p args)
+       let m := Bespoke.separateM nm p args
+       let isPrint : List (List Char) → Bool := fun l => l == [] || l == [['-', 'o']] || l == [['+', 'o']]
+       let viaM := showSet (Bespoke.setParse nm p m)
+       if !isPrint args && !isPrint m && viaM ≠ base then base ++ "\t" ++ s!"FAIL:mode-separated-spelling-gives {viaM}"
+       else specCompare p base (showSet (Bespoke.setParse nm p (Bespoke.separateSO true args)))
      | _, _, _ => "bad-case\t-")
   | "H" :: nm :: args =>
     (match parseNames nm, args.mapM decChars with
@@ -518,7 +526,11 @@ def runLine (line : String) : String :=
      | _, _ => "bad-case\t-")
   | "K" :: p :: st :: nm :: args =>
     (match p.toList.head? >>= parseBit, st.toInt?, parseNames nm, args.mapM decChars with
-     | some p, some st, some nm, some args => specCompare p (showKill (Bespoke.killParse nm p st args)) (showKill (Bespoke.killParse nm p st (Bespoke.separateKill nm args)))
+     | some p, some st, some nm0, some args =>
+       -- the answers of `str2sig` are NOT taken from the harness (its `g:` entries are ignored): they are computed by the
+       -- model of `str2sig` over the re-extracted NAMED_SIGNALS / VirtualSystem constants (Args/Str2sig.lean)
+       let nm : Bespoke.Names := { nm0 with sig := Bespoke.sigAnswers args }
+       specCompare p (showKill (Bespoke.killParse nm p st args)) (showKill (Bespoke.killParse nm p st (Bespoke.separateKill nm args)))
      | _, _, _, _ => "bad-case\t-")
   | "U" :: nm :: init :: p0 :: args =>
     (match parseNames nm, parseInit init, (if p0 = "_" then some [] else (p0.splitOn ",").mapM decChars), args.mapM decChars with
